@@ -94,6 +94,25 @@ CHECKS = {
              'instant in the real clock stream for the same range (the test the session uses); invalid weekdays refused.',
         note='Range membership at date granularity; start time of day <= 14:30.',
         design='5/C13'),
+    'C06': dict(
+        technique='exhaustive dataset x query enumeration on the real CSV data source vs list-based point-in-time lookup + truncation differential',
+        text='Every CSV dataset over a 5-day window with weekend/leap-day gaps (all non-empty row subsets up to 4 rows x '
+             'missing-cell patterns x row orders x adjusted/unadjusted) is written to scratch and loaded by the real '
+             'CSVDailyBarDataSource; every query instant from before the first row to after the last (8 times of day incl. the '
+             '14:30:00 / 21:00:00 boundaries and one second either side) is compared with a reference lookup, with the data '
+             'handler views (one and two sources, assets starting later) and, without any expected value, with the same query '
+             'on the file truncated to rows dated <= t.',
+        note='Trusted: the reference lookup (python lists). Lone-missing Close with Adj Close present is excluded (undefined).',
+        design='5/C06'),
+    'C17': dict(
+        technique='exhaustive prefix-closed enumeration of equity curves vs list-based definitions + metamorphic scaling',
+        text='Every curve grown from 100 by a 4-5 value step alphabet up to 6-7 observations on 4 calendars (year end, leap-day '
+             'month end, mid-year, new year) is fed to the real performance functions, JSONStatistics (incl. file round trip) '
+             'and TearsheetStatistics.get_results: returns, cumulative returns, weekly/monthly/yearly aggregates, drawdown '
+             'series / maximum / duration, CAGR, Sharpe, Sortino vs definitions on python lists; x2 scaling bit-for-bit, x3.7 '
+             'within tolerance; tearsheet = JSON.',
+        note='Drawdown definition evaluated on the reported cumulative series (float-noise safe). Order of aggregate groups is not compared.',
+        design='5/C17'),
 }
 
 NOT_YET = 'check not built yet (work in progress, see DESIGN.md section 5)'
